@@ -85,6 +85,7 @@ ax("sext_zero", "w by", Ext("sext", x, "by"), x, cond="by == 0")
 ax("zext_as_concat", "w by", Ext("zext", x, "by"), Op("concat", L("by", 0), x), cond="by >= 1")
 # the writer spells the zero extension of a Bool as (ite c #b0..01 #b0..00)
 ax("zext_bool_as_ite", "by v1 v0", Op("ite", c1, L("by + 1", "v1"), L("by + 1", "v0")), Ext("zext", c1, "by"), cond="by >= 1 && v1 == 1 && v0 == 0")
+ax("sext_bool_as_ite", "by v1 v0", Op("ite", c1, L("by + 1", "v1"), L("by + 1", "v0")), Ext("sext", c1, "by"), cond="by >= 1 && v1 == v_ones(by + 1) && v0 == 0")
 ax("sext_sext", "w by iby", Ext("sext", Ext("sext", x, "iby"), "by"), Ext("sext", x, "by + iby"), cond="by >= 0 && iby >= 0")
 
 # ---------------------------------------------------------------------------------- concat
